@@ -9,7 +9,15 @@ RULE = ("random PDAs (1-3 states, 1-2 input symbols, 1-3 stack symbols, 1-7 tran
         "to_empty_stack, to_cfg and CFG.to_pda are compared structurally with the Lean model and, on every word of "
         "length <=3/4, through the exact PDA-acceptance oracle (pop-relation saturation) and the CFG membership "
         "oracle. Non-trivial: PDA with >=3 transitions one of which pushes >=2 symbols.")
-THEOREMS = []
+LEVEL = "proof"
+THEOREMS = ["Pfl.PDA.accEmpty_iff",
+            "Pfl.PDA.accFinal_iff",
+            "Pfl.PDA.nextFree_fresh",
+            "Pfl.PDA.toFinalState_lang",
+            "Pfl.PDA.toEmptyStack_lang",
+            "Pfl.PDA.ofCFG_lang",
+            "Pfl.PDA.toCFG_lang",
+            "Pfl.CFG.cfgMem_iff"]
 
 
 def generate(rng, tier):
